@@ -270,3 +270,5 @@ V("center from raw vertex coordinates", "C17", SHAPES, "        return Point(*np
 V("centroid from raw vertex coordinates", "C17", SHAPES, "        points = self.normalized_array\n        centroids", "        points = self.array\n        centroids", "E5.affine", "Polygon.centroid")
 V("point scaling on raw coordinates", "C03", POINT, "        result = self.normalized_array[..., :-1] * other\n", "        result = self.array[..., :-1] * other\n", "E5.object", "PointLikeTensor.__mul__")
 V("Sphere built from the raw centre", "C03", CURVE, "        c = -center.normalized_array\n        m = np.eye(center.shape[0]", "        c = -center.array\n        m = np.eye(center.shape[0]", "E5.object", "Sphere.__init__")
+V("ufunc.at on a view of the argument", "C12", MATH, "    A = np.asarray(A)\n    _assert_square_matrix(A)\n    n = A.shape[-1]\n\n    if n == 2:\n        return A[..., 0, 0] * A[..., 1, 1]",
+  "    A = np.asarray(A)\n    _assert_square_matrix(A)\n    n = A.shape[-1]\n    np.negative.at(A, ())\n\n    if n == 2:\n        return A[..., 0, 0] * A[..., 1, 1]", "E1.mem", "det")
